@@ -138,6 +138,27 @@ type scenario struct {
 	nsubs int // 1 or 2 sub-channels (S, T)
 	cprog []cop
 	eprog []eop
+	// sequential histories: one thread performs publishes, stops and chain events in program
+	// order and lets the watcher settle (5 ms of virtual time) after every step
+	script []step
+	p0     uint64 // version of the parent transaction the watching starts with
+}
+
+// step of a sequential history: Kind in {pub, stop, reg, prog, conc}
+type step struct {
+	Kind string
+	Ch   string
+	V    uint64
+}
+
+func (o step) String() string {
+	switch o.Kind {
+	case "pub":
+		return fmt.Sprintf("pub%s%d", o.Ch, o.V)
+	case "stop":
+		return "stop" + o.Ch
+	}
+	return fmt.Sprintf("%s.%s%d", o.Ch, o.Kind, o.V)
 }
 
 var table = map[string]scenario{}
@@ -187,13 +208,13 @@ func exec(t *testing.T, ssc schedrun.Scenario, o vsched.Options) (*vsched.Sched,
 		ctx := context.Background()
 		pubs := map[string]pwatcher.StatesPub{}
 		evs := map[string]pwatcher.AdjudicatorSub{}
-		p0 := tx("P", 0)
+		p0 := tx("P", sc.p0)
 		var err error
 		pubs["P"], evs["P"], err = wt.StartWatchingLedgerChannel(ctx, channel.SignedState{Params: pp, State: p0.State, Sigs: p0.Sigs})
 		if err != nil {
 			panic(err)
 		}
-		w.pubs = append(w.pubs, pubRec{"P", 0, 0, 0})
+		w.pubs = append(w.pubs, pubRec{"P", sc.p0, 0, 0})
 		for _, n := range subNames {
 			s0 := tx(n, 0)
 			pubs[n], evs[n], err = wt.StartWatchingSubChannel(ctx, pp.ID(), channel.SignedState{Params: subParams[n], State: s0.State, Sigs: s0.Sigs})
@@ -215,8 +236,25 @@ func exec(t *testing.T, ssc schedrun.Scenario, o vsched.Options) (*vsched.Sched,
 			})
 		}
 		done := make(chan struct{}, 2)
-		vsched.GoNamed("client", func() {
-			for _, o := range sc.cprog {
+		var doClient func(o cop)
+		var doChain func(o eop)
+		if sc.script != nil {
+			vsched.GoNamed("script", func() {
+				for _, st := range sc.script {
+					switch st.Kind {
+					case "pub", "stop":
+						doClient(cop{st.Kind, st.Ch, st.V})
+					default:
+						doChain(eop{st.Ch, st.Kind, st.V})
+					}
+					vsched.Sleep(5 * time.Millisecond) // let the watcher settle: a sequential history
+				}
+				vsched.Send(done, struct{}{})
+				vsched.Send(done, struct{}{})
+			})
+		}
+		doClient = func(o cop) {
+			{
 				switch o.Kind {
 				case "pub":
 					w.tick()
@@ -239,10 +277,9 @@ func exec(t *testing.T, ssc schedrun.Scenario, o vsched.Options) (*vsched.Sched,
 					w.stops = append(w.stops, r)
 				}
 			}
-			vsched.Send(done, struct{}{})
-		})
-		vsched.GoNamed("chain", func() {
-			for _, o := range sc.eprog {
+		}
+		doChain = func(o eop) {
+			{
 				id := params(o.Ch).ID()
 				var e channel.AdjudicatorEvent
 				switch o.Kind {
@@ -259,8 +296,21 @@ func exec(t *testing.T, ssc schedrun.Scenario, o vsched.Options) (*vsched.Sched,
 				vsched.AddRecv(sel, sub.closed)
 				sel.Run()
 			}
-			vsched.Send(done, struct{}{})
-		})
+		}
+		if sc.script == nil {
+			vsched.GoNamed("client", func() {
+				for _, o := range sc.cprog {
+					doClient(o)
+				}
+				vsched.Send(done, struct{}{})
+			})
+			vsched.GoNamed("chain", func() {
+				for _, o := range sc.eprog {
+					doChain(o)
+				}
+				vsched.Send(done, struct{}{})
+			})
+		}
 		vsched.Recv(done)
 		vsched.Recv(done)
 		vsched.Sleep(time.Second)
@@ -489,6 +539,17 @@ func check(ssc schedrun.Scenario, s *vsched.Sched, o any) []schedrun.Verdict {
 		ek = append(ek, o.Ch+"."+o.Kind)
 	}
 	site := fmt.Sprintf("%dsub/%s/%s", sc.nsubs, strings.Join(ck, ","), strings.Join(ek, ","))
+	if sc.script != nil {
+		var ks []string
+		for _, st := range sc.script {
+			if st.Kind == "pub" || st.Kind == "stop" {
+				ks = append(ks, st.Kind+st.Ch)
+			} else {
+				ks = append(ks, st.Ch+"."+st.Kind)
+			}
+		}
+		site = "script/" + strings.Join(ks, ",")
+	}
 	var out []schedrun.Verdict
 	mk := func(clause, detail string) {
 		out = append(out, schedrun.Verdict{Property: "C05", Clause: clause, Site: site,
@@ -609,7 +670,7 @@ func scenarios(res *report.Result) []schedrun.Scenario {
 	add := func(nsubs int, cps [][]cop, eps [][]eop, bound func(c []cop, e []eop) int) {
 		for _, cp := range cps {
 			for _, ep := range eps {
-				sc := scenario{nsubs, cp, ep}
+				sc := scenario{nsubs: nsubs, cprog: cp, eprog: ep}
 				c, e := progString(sc)
 				n := fmt.Sprintf("%dsub/%s/%s", nsubs, c, e)
 				table[n] = sc
@@ -621,6 +682,19 @@ func scenarios(res *report.Result) []schedrun.Scenario {
 				out = append(out, schedrun.Scenario{Name: n, Mode: explore.Delay, Bound: b, MaxSteps: 40000, Weight: w})
 			}
 		}
+	}
+	maxLen := 4
+	if res.Thorough() {
+		maxLen = 5
+	}
+	for _, sc := range scripts(maxLen) {
+		var ks []string
+		for _, st := range sc.script {
+			ks = append(ks, st.String())
+		}
+		n := fmt.Sprintf("script/p0=%d/%s", sc.p0, strings.Join(ks, ","))
+		table[n] = sc
+		out = append(out, schedrun.Scenario{Name: n, Mode: explore.Delay, Bound: 0, MaxSteps: 40000, Weight: 1})
 	}
 	cp, ep, cp2, ep2 := programs(res.Thorough())
 	if res.Thorough() {
@@ -634,6 +708,42 @@ func scenarios(res *report.Result) []schedrun.Scenario {
 	} else {
 		add(1, cp, ep, func(c []cop, e []eop) int { return 1 })
 		add(2, cp2, ep2, func(c []cop, e []eop) int { return 1 })
+	}
+	return out
+}
+
+// scripts enumerates every sequential history up to the given length over the alphabet
+// {publish parent / sub-channel with version +1 or +2 (cap 3), registered event for parent /
+// sub-channel with version 0..2, stop watching the sub-channel} that contains a registered event.
+func scripts(maxLen int) (out []scenario) {
+	for _, p0 := range []uint64{0, 2} {
+		var gen func(cur []step, cp, cs uint64, stopped bool, events int)
+		gen = func(cur []step, cp, cs uint64, stopped bool, events int) {
+			if len(cur) > 0 && events > 0 && cur[len(cur)-1].Kind == "reg" {
+				out = append(out, scenario{nsubs: 1, script: append([]step{}, cur...), p0: p0})
+			}
+			if len(cur) == maxLen {
+				return
+			}
+			for d := uint64(1); d <= 2; d++ {
+				if cp+d <= 3 {
+					gen(append(cur, step{"pub", "P", cp + d}), cp+d, cs, stopped, events)
+				}
+				if !stopped && cs+d <= 3 {
+					gen(append(cur, step{"pub", "S", cs + d}), cp, cs+d, stopped, events)
+				}
+			}
+			for v := uint64(0); v <= 2; v++ {
+				gen(append(cur, step{"reg", "P", v}), cp, cs, stopped, events+1)
+				if !stopped {
+					gen(append(cur, step{"reg", "S", v}), cp, cs, stopped, events+1)
+				}
+			}
+			if !stopped {
+				gen(append(cur, step{"stop", "S", 0}), cp, cs, true, events)
+			}
+		}
+		gen(nil, p0, 0, false, 0)
 	}
 	return out
 }
